@@ -19,6 +19,8 @@
 (*   quat  bitwise_quaternary_op_helper                                    *)
 (*   null  NullBuffer union / union_many / contains / expand               *)
 (*   ctor  construction from bits / closures / iterators                   *)
+(*   bigs, bigv   the large-size stage (512 .. 4096+ bits) of every          *)
+(*         primitive with a word / block fast path                         *)
 (*   bnew, bcall   BooleanBufferBuilder / NullBufferBuilder as a state      *)
 (*         machine (variable `bits`)                                       *)
 (*                                                                         *)
@@ -85,6 +87,53 @@ UnView(ev) == <<ev.a, ev.f1, ev.hb, ev.bnot, ev.count, ev.cnt2, ev.ucnt, ev.null
                 ev.idx32, ev.runs, ev.cl, ev.rl, ev.chunks, ev.rem, ev.not, ev.hnot, ev.un, ev.hun, ev.fb,
                 ev.sliced, ev.bsl, ev.so, ev.sn, ev.sl, ev.fq, ev.eq1, ev.eq2,
                 Sub(ev.d1, ev.off, ev.n)>>
+
+---------------------------------------------------------------------------
+(* Large-size stage: lengths around and beyond the word / 16-word block fast  *)
+(* paths.  `bigs`: the scalar primitives on one long range.  `bigv`: the      *)
+(* primitives with long results, logged run-length encoded (`_r`); index      *)
+(* sequences are logged as their maximal stretches of consecutive indices     *)
+(* (lossless), which for the right answer are the runs of set bits.           *)
+BigSOK(ev) ==
+  LET a == ev.a n == Len(ev.a) IN
+  /\ J(n = ev.n, "bigs: input")
+  /\ J(ev.count = Count(a) /\ ev.cnt2 = Count(a) /\ ev.ucnt = Count(a), "big count_set_bits")
+  /\ J(ev.nulls = CountZeros(a), "big null_count")
+  /\ J(ev.ht = HasTrue(a), "big has_true")
+  /\ J(ev.hf = HasFalse(a), "big has_false")
+  /\ J(ev.itmax = IterMax(a), "big BitIterator max")
+  /\ J(\A q \in 1..Len(ev.fq) : ev.fq[q][3] = FindNth(a, ev.fq[q][1], ev.fq[q][2]), "big find_nth")
+  /\ J(ev.eq1 = Eq(a, a), "big eq same")
+  /\ J(ev.eq2 = Eq(a, FlipAt(a, ev.fi)), "big eq flipped")
+  /\ J(ev.cont1 = Contains(a, a) /\ ev.cont2 = Contains(a, FlipAt(a, ev.fi)), "big contains")
+BigSView(ev) == <<ev.a, ev.count, ev.cnt2, ev.ucnt, ev.nulls, ev.ht, ev.hf, ev.itmax, ev.fq, ev.eq1, ev.eq2, ev.cont1, ev.cont2>>
+
+RunLens(r) == LET F[k \in 0..Len(r)] == IF k = 0 THEN 0 ELSE F[k - 1] + r[k][2] IN F[Len(r)]
+
+BigVOK(ev) ==
+  LET a == ev.a b == ev.b n == Len(ev.a) IN
+  /\ J(n = ev.n /\ Len(b) = n, "bigv: input")
+  /\ J(ev.idx = SetSlices(a) /\ ev.idx32 = SetSlices(a), "big set_indices")
+  /\ J(ev.runs = SetSlices(a), "big set_slices")
+  /\ J(/\ ev.cl = ChunkLen(a) /\ ev.rl = RemainderLen(a) /\ ev.chunks_r = RLE(ChunkBits(a))
+       /\ ev.rem = RemainderWord(a), "big BitChunks")
+  /\ J(/\ ev.ulead \in 0..63 /\ ev.utrail \in 0..63 /\ RunLens(ev.uw_r) % 64 = 0
+       /\ ev.uw_r = RLE(Zeros(ev.ulead) \o a \o Zeros(ev.utrail)), "big UnalignedBitChunk")
+  /\ J(ev.iter_r = RLE(a), "big BitIterator")
+  /\ J(ev.not_r = RLE(Not(a)) /\ ev.hnot_r = RLE(Not(a)), "big not")
+  /\ J(ev.un_r = RLE(Un(ev.f1, a)) /\ ev.hun_r = RLE(Un(ev.f1, a)), "big unary op")
+  /\ J(ev.sliced_r = RLE(a) /\ ev.bsl_r = RLE(a), "big sliced / bit_slice")
+  /\ J(ev.and_r = RLE(And(a, b)) /\ ev.or_r = RLE(Or(a, b)) /\ ev.xor_r = RLE(Xor(a, b)), "big and/or/xor")
+  /\ J(ev.tt_r = RLE(Bin(ev.f2, a, b)) /\ ev.htt_r = RLE(Bin(ev.f2, a, b)), "big binary op")
+  /\ J(Sub(ev.d0, ev.off, n) = a, "bigv: destination holds the input")
+  /\ J(ev.ud1_r = RLE(ApplyUn(ev.d0, ev.off, n, ev.f1)), "big apply_bitwise_unary_op")
+  /\ J(ev.bd1_r = RLE(ApplyBin(ev.d0, ev.off, b, n, ev.f2)), "big apply_bitwise_binary_op")
+  /\ J(ev.sd1_r = RLE(SetBits(ev.sd0, b, ev.off, 0, n)) /\ ev.sret = CountZeros(b), "big set_bits")
+  /\ J(OptAgrees(ev.u_p, UnRLE(ev.u_r), Union(a, b)), "big NullBuffer::union")
+  /\ J(ev.ex_r = RLE(Expand(a, 2)), "big NullBuffer::expand")
+BigVView(ev) == <<ev.a, ev.b, ev.f1, ev.f2, ev.idx, ev.idx32, ev.runs, ev.cl, ev.rl, ev.chunks_r, ev.rem, ev.iter_r,
+                  ev.not_r, ev.hnot_r, ev.un_r, ev.hun_r, ev.sliced_r, ev.bsl_r, ev.and_r, ev.or_r, ev.xor_r, ev.tt_r,
+                  ev.htt_r, ev.sret, ev.u_p, ev.u_r, ev.ex_r>>
 
 ---------------------------------------------------------------------------
 AsgTable(ev) == CASE ev.aop = "and" -> TAnd [] ev.aop = "or" -> TOr [] ev.aop = "xor" -> TXor
@@ -200,6 +249,8 @@ Next ==
        [] ev.op = "bnot" -> /\ J(Sub(ev.d0, ev.off, ev.n) = ev.a, "bnot: source holds the input")
                             /\ JudgeKF(ev.bnot = BNotWant(ev), l, "buffer_unary_not", KF_BNot(ev))
                             /\ UNCHANGED <<prev, bits>>
+       [] ev.op = "bigs" -> BigSOK(ev) /\ TwoRuns(ev, BigSView) /\ UNCHANGED bits
+       [] ev.op = "bigv" -> BigVOK(ev) /\ TwoRuns(ev, BigVView) /\ UNCHANGED bits
        [] ev.op = "bin"  -> BinOK(ev) /\ TwoRuns(ev, BinView) /\ UNCHANGED bits
        [] ev.op = "set"  -> SetOK(ev) /\ TwoRuns(ev, SetView) /\ UNCHANGED bits
        [] ev.op = "quat" -> QuatOK(ev) /\ TwoRuns(ev, QuatView) /\ UNCHANGED bits
